@@ -952,10 +952,10 @@ class TextReader : public ReaderBase {
     typedef typename MakeUnsigned<Int>::Type UInt;
     UInt result = 0;
     do {
-      UInt new_result = result * 10 + (c - '0');
-      if (new_result < result)
+      UInt digit = c - '0';
+      if (result > (std::numeric_limits<UInt>::max() - digit) / 10)
         ReportError("number is too big");
-      result = new_result;
+      result = result * 10 + digit;
       c = *++ptr_;
     } while (c >= '0' && c <= '9');
     UInt max = std::numeric_limits<Int>::max();
